@@ -409,6 +409,11 @@ func main() {
 			switch l[0] {
 			case "sync.run":
 				emit(scenarioOfArgs(l[2]))
+			case "sync.extreme":
+				// same arguments; the family name makes emit write the kind sync.extreme again
+				sc := scenarioOfArgs(l[2])
+				sc.fam = "extreme-known"
+				emit(sc)
 			case "sync.drift":
 				f := lib.Fields(l[2])
 				driftCase(lib.ParseI(f[0]), lib.ParseI(f[1]))
